@@ -193,6 +193,9 @@ func propC04(c *Ctx) {
 	c.Rule("C04.R6", func() { routedEventsForwarded(c, "C04.R6") })
 
 	c.Rule("C04.R5", func() { verbatimLeaf(c, "C04.R5") })
+	// every leaf position of every tree size is provable: the documented tree pairs a
+	// sibling-less node with itself, so the node hash must cover the "equal" outcome too
+	c.Rule("C04.R7", func() { nodeHashAndFold(c, "C04.R7") })
 	c.Extra["transport_agreement"] = "L2 event attributes (from,to,denom->base_denom,amount,l2_sequence) are the verbatim inputs of the L1 leaf (C04.R2 + C04.R5)"
 
 	c.Rule("C04.R4", func() {
@@ -318,11 +321,25 @@ func propC08(c *Ctx) {
 		// refund leg (failed deposit): what is reclaimed and burned is exactly the deposited coin,
 		// and that is the amount the refund withdrawal announces - never more, never less
 		fd := childHandler(c, "FinalizeTokenDeposit")
+		o6 := c.Ob("C08.R1", "refund leg: every refund withdrawal is announced from the relayed recipient (req.To) to the depositor (req.From), verbatim")
 		o5 := c.Ob("C08.R1", "refund leg: a failed deposit that was minted is reclaimed and burned for exactly NewCoins(req.Amount), the amount its refund withdrawal announces")
 		for _, p := range c.Paths(fd, PO{Params: hParams, NoInline: []string{".Validate", "checkBridgeExecutorPermission", "handleBridgeHook", "safeDepositToken", "setDenomMetadata", "GetBaseDenom"}}) {
 			o5.Paths++
 			if !p.OK() || p.Panic {
 				continue
+			}
+			// any refund (credited or not) is claimable on L1 only if it is announced from the
+			// relayed L2 recipient string back to the L1 depositor string, verbatim
+			if _, vs, _ := emitted(p); true {
+				for _, v := range vs {
+					if v.Type != "initiate_token_withdrawal" {
+						continue
+					}
+					o6.Sites++
+					if strip(v.Attrs["from"]).Key() != "req.To" || strip(v.Attrs["to"]).Key() != "req.From" {
+						o6.Fail(c.W.Pos(fd.Pos()), "refund announced from "+trunc(strip(v.Attrs["from"]).Key(), 80)+" to "+trunc(strip(v.Attrs["to"]).Key(), 80)+" (want the relayed req.To back to req.From): the escrowed coins could never be claimed", c.Dump(p, -1))
+					}
+				}
 			}
 			burns := p.Find(func(ev *Event) bool { return ev.Kind == EvCall && isCall(ev, "BankKeeper).BurnCoins") })
 			takes := p.Find(func(ev *Event) bool {
@@ -352,6 +369,9 @@ func propC08(c *Ctx) {
 		}
 		if o5.Sites == 0 {
 			o5.Fail(c.W.Pos(fd.Pos()), "no refund path with a burn found (floor 1)", nil)
+		}
+		if o6.Sites == 0 {
+			o6.Fail(c.W.Pos(fd.Pos()), "no refund withdrawal event found (floor 1)", nil)
 		}
 		// release leg: the amount paid is the amount hashed into the leaf (C03.R2)
 		fw := hostHandler(c, "FinalizeTokenWithdrawal")
